@@ -29,6 +29,24 @@ ENUMERATED = {0x13: "DW_LANG_", 0x20: "DW_INL_", 0x3e: "DW_ATE_", 0x32: "DW_ACCE
 SIGNED_ATTRS = {0x51: "byte_stride", 0x2e: "bit_stride", 0x5b: "binary_scale", 0x5c: "decimal_scale"}
 
 
+ENUM_RENDER_Q = ("entry attribute ?(label == (DW_AT_language, DW_AT_inline, DW_AT_encoding, DW_AT_accessibility, DW_AT_visibility, "
+                 "DW_AT_virtuality, DW_AT_identifier_case, DW_AT_calling_convention, DW_AT_ordering, DW_AT_decimal_sign, "
+                 "DW_AT_address_class, DW_AT_endianity, DW_AT_defaulted)) !(form == (DW_FORM_sdata, DW_FORM_udata)) [label value, value value, value \"%s\"]")
+
+
+def _hdr_by_family():
+    from . import c20
+    out = {}
+    for name, val in c20.header_constants().items():
+        for fam in set(ENUMERATED.values()):
+            if fam.startswith("DW_") and name.startswith(fam) and not name.endswith(("_lo_user", "_hi_user")):
+                out.setdefault(fam, {}).setdefault(val, set()).add(name)
+    return out
+
+
+HDR_BY_FAMILY = _hdr_by_family()
+
+
 def spec_expected(a):
     """what the property fixes outright, whatever the model says: form-determined values and enumerated attributes"""
     F = forest.DW_FORM
@@ -117,6 +135,7 @@ def run(ctx):
     ok = 0
     classes = {}
     boundary = 0
+    enum_rendered = 0
     errors_expected = 0
     locstats = {}
     try:
@@ -139,6 +158,20 @@ def run(ctx):
             for line in model:
                 o, i, kind = line.split(" ", 2)
                 want[(int(o), int(i))] = kind
+            # enumerated attributes print as the name the DWARF header gives their number in their family (zero included)
+            er, _ = fs.query(path, [ENUM_RENDER_Q])
+            if er and not er[0].err:
+                for r in er[0].res:
+                    q = dwcorr.parse_vals(r[r.index("["):])[0][1]
+                    lab, num, text = q[0][2], q[1][2], q[2][1].decode("latin-1")
+                    fam = ENUMERATED.get(lab)
+                    names = HDR_BY_FAMILY.get(fam, {}).get(num)
+                    enum_rendered += 1
+                    if names and text not in names:
+                        ctx.violation("attribute %#x with stored value %d prints as %r; the header names it %s"
+                                      % (lab, num, text, " / ".join(sorted(names))),
+                                      {"stream": "C07-forest", "input": fs.inp(desc, path, ENUM_RENDER_Q), "got": text,
+                                       "expected": sorted(names), "theorem": "ZwVerif.C07.enumerated_attribute_domain"})
             recs, crashes = fs.query(path, [VALUE_QUERY, c17.LOC_Q])
             if crashes:
                 ctx.violation("the library crashed decoding attribute values: %r" % (crashes,),
